@@ -22,6 +22,14 @@ CHECKS = {
         note="Trusted: z3, CPython, forksym proxies; the file is an uninterpreted array (reads return (offset,length) slices; no short reads). "
              "Family 'data': all numbers unbounded, <=2/<=3 range specs, chunk loops unwound K=3/4 with unwinding assertion. Family 'framing': "
              "multipart Content-Length digit-exact for sizes <10^4 / <10^6. Every path's model is re-run on a real temp file with the unshimmed code."),
+    "C04": dict(
+        technique="differential fork-on-branch symbolic execution: the WSGI and the ASGI implementation run on the same symbolic data on one path and their normalised observations are compared by z3 queries",
+        design_ref="DESIGN.md §4 C04",
+        note="Trusted: z3, CPython/asyncio, forksym/ReShim and the stubs shared with C02/C05/C07/C08/C09/C14 (identical on both sides). Families: all "
+             "non-file response classes, FileResponse on the symbolic file (numbers unbounded, <=2 range specs, raw Range text <=4/<=6 chars), streams run to "
+             "completion, header-derived request attributes (values <=2/<=3 Latin-1 chars; names from a recipe list), request bodies (<=3 chunks, "
+             "symbolic emptiness), Router/Subpaths/Hosts/Files/Pages/conditional requests. Abstract requests have one value per header name; URL/query "
+             "parsing uses concrete recipes."),
     "C05": dict(
         technique="fork-on-branch symbolic execution of every response class on both interfaces against a scripted server with a protocol monitor: status, header/cookie/body/download-name characters and the FAULT POINT (failing send call, raising producer step, early close) are solver variables",
         design_ref="DESIGN.md §4 C05",
